@@ -122,7 +122,9 @@ def coq_sources():
 
 def scan_forbidden():
     bad = []
-    for v in _walk(COQ, (".v",)):
+    # the development = the files of _CoqProject (+ the extraction script)
+    files = [os.path.join(COQ, v) for v in coq_sources()] + [os.path.join(COQ, "Extract", "Extract.v")]
+    for v in files:
         with open(v) as f:
             txt = f.read()
         txt = re.sub(r"\(\*.*?\*\)", " ", txt, flags=re.S)
@@ -246,11 +248,15 @@ def ensure_go(drivers, tags="verif"):
             outp = os.path.join(bindir, d)
             if os.path.exists(outp):
                 continue
+            cwd = HARNESS
             if d.endswith(".test"):   # synctest drivers are test binaries
                 cmd = [GO, "test", "-c", "-tags", tags, "-o", outp, "./" + d[:-5]]
+            elif d.startswith("cmd-"):   # the repository's own command-line tools, built as shipped
+                cmd = ["go", "build", "-o", outp, "./cmd/" + d[4:]]
+                cwd = REPO
             else:
                 cmd = [GO, "build", "-tags", tags, "-o", outp, "./" + d]
-            rc, out, _ = run(cmd, cwd=HARNESS, env=GOENV, timeout=1200)
+            rc, out, _ = run(cmd, cwd=cwd, env=GOENV, timeout=1200)
             if rc != 0:
                 return None, out
         # keep only the three most recent bin dirs
